@@ -75,7 +75,7 @@ def _bodies(ctx, rng):
         for chk in ("crc", "sum"):
             for _ in range(6):
                 yield _rand_body(rng, length), chk
-    for _ in range(1500 if quick else 400000):
+    for _ in range(1500 if quick else 2000000):
         yield _rand_body(rng, rng.randint(16, 40)), rng.choice(["crc", "sum"])
 
 
@@ -83,12 +83,12 @@ def _with_history(ctx, rng):
     """(body, check, earlier body): the same client object first refreshes against a longer report, then against this one -
     fields that are absent now must read unknown again, not the earlier value."""
     for length in range(16, 23):
-        for _ in range(6 if ctx.tier == "quick" else 200):
+        for _ in range(6 if ctx.tier == "quick" else 1000):
             prev = _rand_body(rng, rng.choice([23, 24, 30]))
             prev[19] = rng.randint(1, 100)
             prev[21] |= 0x80
             yield _rand_body(rng, length), rng.choice(["crc", "sum"]), prev
-    for _ in range(60 if ctx.tier == "quick" else 3000):
+    for _ in range(60 if ctx.tier == "quick" else 15000):
         yield _rand_body(rng, rng.randint(16, 40)), rng.choice(["crc", "sum"]), _rand_body(rng, rng.randint(16, 40))
 
 
@@ -111,7 +111,7 @@ def _check_values(ctx, rng):
 
 def _histories(ctx, rng):
     quick = ctx.tier == "quick"
-    for _ in range(150 if quick else 6000):
+    for _ in range(150 if quick else 30000):
         b = _rand_body(rng, rng.randint(16, 40))
         # the same report twice with a local (never applied) edit of the attributes in between
         yield {"body": bytes(b), "check": rng.choice(["crc", "sum"]), "prev_body": bytes(b), "edit": True}
